@@ -19,6 +19,17 @@ pub fn count(tier: Tier) -> u64 {
 /// Case kinds: bare content packs (C01's generator), bare directory packs (C02/C03/C15 generators),
 /// whole containers in every packaging.
 pub fn gen(seed: u64, tier: Tier, k: u64) -> Value {
+    if (tier == Tier::Quick && k == 11) || (tier == Tier::Thorough && k % 500 == 11) {
+        // a container of 256 packs or more, made with the low-level creators (pack counts, pack ids and the masked part of
+        // the manifest's checksum beyond one byte)
+        let mut rng = Rng::keyed(seed, "C14-many", k);
+        let mut case = gen_small(&mut rng, tier, Pkg::NoConcat, 0, 3);
+        for _ in 1..*rng.pick(&[256usize, 257, 300]) {
+            let items = vec![Item { len: rng.range(1, 40) as usize, ent: Ent::High, hint: Hint::No, src: Src::Mem, dup_of: None, cat_of: None }];
+            case.extra.push(ContentCase { seed: rng.next(), comp: Comp::None, cached: false, items });
+        }
+        return json!({"kind": "container", "how": if k % 2 == 1 { "loose" } else { "loose-concat" }, "case": case.to_json()});
+    }
     match k % 6 {
         0 => json!({"kind": "content", "case": c01::gen(seed ^ 0x14, tier, k / 6)}),
         1 => json!({"kind": "dir", "case": crate::c02::gen(seed ^ 0x14, tier, k / 6)}),
